@@ -98,6 +98,39 @@ Definition discover (l : list astream) : string * list string :=
   let r := discover_from l "" [] in
   (if String.eqb (fst r) "" then "cal" else fst r, snd r).
 
+(* what telstate holds about one stream name: stream_type, `targets` values, cal_input_map inputs (antlist x
+   pol_ordering; [] when absent), whether center_freq / bandwidth / n_chans are all there, and the product types with
+   solutions in this capture block *)
+Record tstream := mk_tstream { ts_name : string; ts_type : string; ts_targets : list string;
+                               ts_inputs : list string; ts_spectral : bool; ts_types : list string }.
+Fixpoint find_tstream (s : string) (l : list tstream) : option tstream :=
+  match l with
+  | [] => None
+  | c :: t => if String.eqb (ts_name c) s then Some c else find_tstream s t
+  end.
+Definition astream_of (tel : list tstream) (n : string) : astream :=
+  match find_tstream n tel with
+  | Some t => mk_astream n (ts_type t) (ts_targets t)
+  | None => mk_astream n "" []
+  end.
+Definition types_of (tel : list tstream) (n : string) : list string :=
+  match find_tstream n tel with Some t => ts_types t | None => [] end.
+(* add_applycal_sensors registers a stream (returns its frequencies) iff cal_input_map is non-empty and the
+   spectral attributes are there; `attrs` = the attributes of the stream named `attrs_of` *)
+Definition register_one (tel : list tstream) (alias attrs_of : string) (subs : list string) : list cstream :=
+  match find_tstream attrs_of tel with
+  | Some t => match ts_inputs t with
+              | [] => []
+              | _ => if ts_spectral t then [mk_cstream alias (ts_inputs t) (map (types_of tel) subs)] else []
+              end
+  | None => []
+  end.
+(* _register_standard_cal_streams: cal_freqs keys in order l1, l2 *)
+Definition registered (tel : list tstream) (archived : list string) : list cstream :=
+  let d := discover (map (astream_of tel) archived) in
+  (register_one tel "l1" (fst d) [fst d] ++
+   match snd d with [] => [] | h :: _ => register_one tel "l2" h (snd d) end)%list.
+
 (* ------------------------------------------------------------------ the whole request -> applied products *)
 Inductive outcome := ValueErr | KeyErr | Applied (l : list string).
 Definition applycal_products (r : request) (streams : list cstream) (inputs : list string) : outcome :=
@@ -132,6 +165,12 @@ Definition astream_of_sx (x : sx) : astream :=
   | L [n; ty; tg] => mk_astream (to_string n) (to_string ty) (to_strings tg)
   | _ => mk_astream EmptyString EmptyString []
   end.
+Definition tstream_of_sx (x : sx) : tstream :=
+  match x with
+  | L [n; ty; tg; i; sp; t] =>
+      mk_tstream (to_string n) (to_string ty) (to_strings tg) (to_strings i) (to_bool sp) (to_strings t)
+  | _ => mk_tstream EmptyString EmptyString [] [] false []
+  end.
 Definition sx_of_outcome (o : outcome) : sx :=
   match o with
   | ValueErr => L [I 0]
@@ -164,5 +203,11 @@ Definition wire_141 (x : sx) : sx :=
   | L [I 2; archived] =>
       let r := discover (map astream_of_sx (to_list archived)) in
       L [of_string (fst r); L (map of_string (snd r))]
+  (* a whole data set: telstate streams + sdp_archived_streams + request -> [registered aliases; model; spec] *)
+  | L [I 3; r; tel; archived; inputs] =>
+      let cs := registered (map tstream_of_sx (to_list tel)) (to_strings archived) in
+      L [L (map (fun c => of_string (cs_name c)) cs);
+         sx_of_outcome (applycal_products (request_of_sx r) cs (to_strings inputs));
+         sx_of_outcome (spec_applycal (request_of_sx r) cs (to_strings inputs))]
   | _ => sx_err
   end.
